@@ -221,6 +221,10 @@ int32 parseClientHello(ssl_t *ssl, unsigned char **cp, unsigned char *end)
             if (ssl->sessionIdLen > SSL_MAX_SESSION_ID_SIZE ||
                 end - c < ssl->sessionIdLen)
             {
+                /* Do not keep a length that does not describe sessionId[]:
+                   the session-cache bookkeeping run for a failed handshake
+                   acts on this field. */
+                ssl->sessionIdLen = 0;
                 ssl->err = SSL_ALERT_ILLEGAL_PARAMETER;
 # ifdef USE_MATRIXSSL_STATS
                 matrixsslUpdateStat(ssl, FAILED_RESUMPTIONS_STAT, 1);
